@@ -42,3 +42,40 @@ package config
 //@   loop 2 invariant poolsForNamespace != nil || len(pool.ServiceAllocations.Namespaces) == 0
 //@   loop 3 invariant DistinctArrays(poolsForNamespace)
 //@   loop 3 invariant forall ns string :: ns in visited ==> SortedWeak(poolsForNamespace[ns])
+
+// ---- C08: accepted configuration is sound ----
+
+// WfCIDR: a canonical network: IPv4 as 4-byte address and mask, IPv6 as 16-byte non-mapped address and mask;
+// canonical mask, masked address. For such a network Mask.Size() is the prefix length Contains applies.
+//@ pred WfCIDR(c *net.IPNet) := c != nil && len(c.IP) == len(c.Mask) && (len(c.IP) == 4 || len(c.IP) == 16)
+//@     && net.is4(c.IP) == (len(c.IP) == 4) && net.maskBits(c.Mask) == 8 * len(c.Mask)
+//@     && 0 <= net.maskOnes(c.Mask) && net.maskOnes(c.Mask) <= net.maskBits(c.Mask)
+//@     && net.pfx(net.num(c.IP), net.maskOnes(c.Mask)) == net.num(c.IP)
+
+// Subset(o, i): every address of i is an address of o (same family, o's prefix is a prefix of i's).
+//@ pred Subset(o *net.IPNet, i *net.IPNet) := net.is4(o.IP) == net.is4(i.IP) && net.maskOnes(o.Mask) <= net.maskOnes(i.Mask)
+//@     && net.pfx(net.num(i.IP), net.maskOnes(o.Mask)) == net.num(o.IP)
+
+//@ func cidrContainsCIDR
+//@   requires WfCIDR(outer) && WfCIDR(inner)
+//@   ensures result == Subset(outer, inner)
+//@   modifies nothing
+
+// Overlap(a, b): the two networks have an address in common (lemma C08.overlapIffCommon).
+//@ pred Overlap(a *net.IPNet, b *net.IPNet) := Subset(a, b) || Subset(b, a)
+//@ func cidrsOverlap
+//@   requires WfCIDR(a) && WfCIDR(b)
+//@   ensures result == Overlap(a, b)
+//@   modifies nothing
+
+// For canonical networks, "some address lies in both" is exactly Overlap.
+//@ lemma C08.overlapIffCommon: forall a *net.IPNet, b *net.IPNet :: WfCIDR(a) && WfCIDR(b) ==>
+//@     (Overlap(a, b) == (exists x net.IP :: net.NetContains(*a, x) && net.NetContains(*b, x)))
+
+//@ func ParseCIDR
+//@   ensures [nonempty] result1 == nil ==> len(result0) >= 1
+//@   ensures [canonical] result1 == nil ==> (forall i int :: 0 <= i && i < len(result0) ==> WfCIDR(result0[i]))
+//@   ensures [onefamily] result1 == nil ==> (forall i int, j int :: 0 <= i && i < len(result0) && 0 <= j && j < len(result0) ==> net.is4(result0[i].IP) == net.is4(result0[j].IP))
+//@   modifies fresh []*net.IPNet, fresh *net.IPNet, fresh []string, fresh []interface{}
+//@   loop 1 invariant (ret == nil || fresh(ret)) && len(ret) == iter
+//@   loop 1 invariant forall i int :: 0 <= i && i < len(ret) ==> WfCIDR(ret[i]) && net.is4(ret[i].IP) == net.is4(start)
